@@ -91,7 +91,7 @@ prop( 'C06', [ 'X-SERVICES', 'P-REPLYBIT', 'P-ONE', 'P-PROCEED', 'D-ECHO', 'S-ST
       not_decided='framing of reply values, randomness of session handles, socket-level pipelining behaviour (dynamic).',
       technique='sibling exhaustiveness (set comparison of folded constants); path effect counting on the CFG; must-pass-through; zero-count store rules' )
 
-prop( 'C17', [ 'T-CMP', 'T-DURATION', 'T-LOCALIZE', 'T-RENDER', 'T-CACHE' ],
+prop( 'C17', [ 'T-CMP', 'T-DURATION', 'T-LOCALIZE', 'T-RENDER', 'T-CACHE', 'T-ZONETOKEN' ],
       decides='T-CMP: the six timestamp comparison operators form one family - __lt__/__gt__ shift by the class _epsilon = 10**-_precision, '
               '__le__/__ge__/__eq__/__ne__ are their negations/disjunction - and render( ms=True )/__str__ use the same _precision, so '
               'comparison and rendering resolution cannot drift apart; T-DURATION: each (unit, suffix) pair duration._format emits is the pair '
@@ -102,7 +102,7 @@ prop( 'C17', [ 'T-CMP', 'T-DURATION', 'T-LOCALIZE', 'T-RENDER', 'T-CACHE' ],
               'fraction from one value rounded to the requested digits before any formatting (so a fraction that rounds up carries into the '
               'seconds), the fraction is the last digits+1 characters of its fixed-point rendering, digits default to _precision and are '
               'limited to 0..6, a parsed fraction is right-padded to microseconds, number_from_datetime = timegm( UTC tuple ) + '
-              'microsecond / 10**6 with true division, datetime_from_number = fromtimestamp( n, tz=zone ).  T-CACHE: every store to a timestamp\'s value outside __init__ is followed on every path by clearing the cached rendering of the SAME object; __init__ clears first and copies a cache only with the value it belongs to - so str() and the value of a timestamp cannot disagree.',
+              'microsecond / 10**6 with true division, datetime_from_number = fromtimestamp( n, tz=zone ).  T-CACHE: every store to a timestamp\'s value outside __init__ is followed on every path by clearing the cached rendering of the SAME object; __init__ clears first and copies a cache only with the value it belongs to - so str() and the value of a timestamp cannot disagree.  T-RENDER also: the fraction appended is that of value - floor( value ) (evaluated on instants before the epoch).  T-ZONETOKEN: the parser\'s separator table must not be applied to the zone designator render() appends - currently a known finding.',
       not_decided='float rounding error itself, the contents of the time-zone database, millisecond equality of render/parse as a value.',
       technique='operator-family shape matching (AST patterns); unit/suffix table agreement incl. constant-regex group lookup; '
                 'def-use agreement (one rounded value feeds both the seconds and the fraction)' )
